@@ -274,6 +274,51 @@ def _range_rule(chk, prog):
                       "nothing beyond it" % (lenp, [r.text() for r in rejects], lenp))
 
 
+def _fmttables_rule(chk, prog):
+    """A conversion letter of the printf-style formatter is described in three places that must agree: the `case`
+    labels of the two formatters (janet_formatbv, janet_buffer_format), the table that maps integer conversions to
+    the 64-bit printf forms (format_mappings[]), and the string of letters that scanformat() rewrites through that
+    table (FMT_REPLACE_INTTYPES).  A letter with a case and a mapping row that is missing from the rewrite string is
+    handed to snprintf verbatim and prints garbage or nothing."""
+    rule = "C17-FMTTABLES"
+    chk.rule(rule, "integer conversion letters: format_mappings[] rows == letters rewritten by scanformat == integer cases of both formatters")
+    tu = prog.tus["pp.c"]
+    m = prog.macros.get("FMT_REPLACE_INTTYPES")
+    if not m:
+        raise AnalysisBroken("FMT_REPLACE_INTTYPES not found")
+    rewritten = set(m["body"].strip().strip('"'))
+    tab = tu.ginit("format_mappings")
+    if tab is None:
+        raise AnalysisBroken("format_mappings[] not found")
+    rows = set()
+    for r in tab.kids:
+        if r.kids and r.kids[0].v is not None:
+            rows.add(chr(r.kids[0].v))
+    chk.instance(rule)
+    if rows == rewritten:
+        chk.ok(rule, "format_mappings rows %s == FMT_REPLACE_INTTYPES" % "".join(sorted(rows)))
+    else:
+        chk.violation(rule, "pp.c", "scanformat", "rewrite:%s" % "".join(sorted(rows ^ rewritten)), tu.file,
+                      "format_mappings[] has rows for %s but scanformat rewrites %s: the letters %s are passed to snprintf unchanged "
+                      "(or have no mapping to rewrite to)" % ("".join(sorted(rows)), "".join(sorted(rewritten)), "".join(sorted(rows ^ rewritten))))
+    for fname in ("janet_formatbv", "janet_buffer_format"):
+        fn = tu.funcs.get(fname)
+        if fn is None:
+            raise AnalysisBroken("%s not found" % fname)
+        chk.analysed(fn)
+        cases = set()
+        for x in fn.nodes:
+            if x.k == "case" and x.kids and x.kids[0].v is not None and 32 < x.kids[0].v < 127:
+                cases.add(chr(x.kids[0].v))
+        chk.instance(rule)
+        missing = sorted(rows - cases)
+        if missing:
+            chk.violation(rule, "pp.c", fname, "cases:%s" % "".join(missing), fn.loc,
+                          "%s has no case for the integer conversion(s) %s that format_mappings[] defines" % (fname, "".join(missing)))
+        else:
+            chk.ok(rule, "%s handles every mapped integer conversion" % fname)
+
+
 def run(chk):
     prog = Program.load("default")
     cg = CallGraph(prog)
@@ -282,5 +327,6 @@ def run(chk):
     _reserve_rule(chk, prog)
     _alias_rule(chk, prog)
     _range_rule(chk, prog)
+    _fmttables_rule(chk, prog)
     from rules import c17_copylen
     c17_copylen.run(chk, prog)
